@@ -1,2 +1,5 @@
 //! Reference models (sequential specifications used by the oracles)
 pub mod mbroker;
+pub mod mlog;
+pub mod mmatch;
+pub mod mclient;
